@@ -88,6 +88,17 @@ def cases(tier):
                     {"v": tval})
                 add(f"type:{tname}:itemSeparator={sep!r}:joined", tool({"v": {"type": ttype, "inputBinding": {"prefix": "-A=", "separate": False, "itemSeparator": sep}}}),
                     {"v": tval})
+    # empty arrays: nothing reaches the command line, with or without itemSeparator / prefix / inner binding
+    for label, b in (("plain", {"position": 1}), ("sep", {"position": 1, "itemSeparator": ","}),
+                     ("prefix-sep", {"position": 1, "prefix": "--tags", "itemSeparator": ","}),
+                     ("joined-sep", {"prefix": "--t=", "separate": False, "itemSeparator": ","}), ("prefix", {"prefix": "-p"})):
+        add(f"type:array-empty:{label}", tool({"v": {"type": {"type": "array", "items": "string"}, "inputBinding": b},
+                                              "w": {"type": "string", "inputBinding": {"position": 2}}}), {"v": [], "w": "after"})
+    add("type:array-empty:inner", tool({"v": {"type": {"type": "array", "items": "string", "inputBinding": {"prefix": "-i"}},
+                                              "inputBinding": {"position": 1}}, "w": {"type": "string", "inputBinding": {"position": 2}}}),
+        {"v": [], "w": "after"})
+    add("valueFrom:empty-array-sep", tool({"s": {"type": "string", "inputBinding": {"position": 1, "itemSeparator": ",", "valueFrom": "$([])"}},
+                                           "w": {"type": "string", "inputBinding": {"position": 2}}}), {"s": "x", "w": "after"})
     # 3. valueFrom on the binding, arguments entries, ordering of several inputs
     add("valueFrom:self", tool({"s": {"type": "string", "inputBinding": {"position": 1, "valueFrom": "$(self + '!')"}}}), {"s": "a b"})
     add("valueFrom:other", tool({"s": {"type": "string", "inputBinding": {"position": 1, "valueFrom": "$(inputs.n + 1)"}}, "n": "int"}), {"s": "x", "n": 4})
